@@ -8,6 +8,7 @@ import (
 	"fmt"
 	"strings"
 	"testing"
+	"verif/fold"
 
 	"github.com/alicebob/sqlittle"
 	sdb "github.com/alicebob/sqlittle/db"
@@ -135,7 +136,7 @@ func prepare(r *vt.Run, t vt.TB, s e1.Spec, path string) (*sqlittle.DB, []tableC
 
 func findIndex(cat *e1.Catalog, name string) *e1.IndexInfo {
 	for i := range cat.Indexes {
-		if strings.EqualFold(cat.Indexes[i].Name, name) {
+		if fold.Equal(cat.Indexes[i].Name, name) {
 			return &cat.Indexes[i]
 		}
 	}
@@ -144,7 +145,7 @@ func findIndex(cat *e1.Catalog, name string) *e1.IndexInfo {
 
 func findDef(ts e1.TableSpec, name string) *sqlgen.Index {
 	for i := range ts.Indexes {
-		if strings.EqualFold(ts.Indexes[i].Ident.Name, name) {
+		if fold.Equal(ts.Indexes[i].Ident.Name, name) {
 			return &ts.Indexes[i]
 		}
 	}
@@ -435,7 +436,7 @@ func runC03(r *vt.Run, t vt.TB, s spec) {
 				searches++
 				collMatters := false
 				for i := range key {
-					if !strings.EqualFold(keyColl[i], "BINARY") && key[i].T == 't' {
+					if !fold.Equal(keyColl[i], "BINARY") && key[i].T == 't' {
 						collMatters = true
 					}
 				}
